@@ -34,12 +34,25 @@ import (
 type csItem struct {
 	Kind    string `json:"kind"` // "fwd" | "back"
 	Await   bool   `json:"await,omitempty"`
-	Blk     blkRef `json:"blk"`                  // fwd: the block (NtC) / the block whose header is sent (NtN)
-	Origin  bool   `json:"origin,omitempty"`     // back: roll back to origin
-	DelayUs int    `json:"delay_us,omitempty"`   // server pause before this reply
-	Hold    bool   `json:"hold,omitempty"`       // do not flush after this reply: it shares a segment with the next
-	TipOrig bool   `json:"tip_origin,omitempty"` // tip point is the origin
+	Blk     blkRef `json:"blk"`                     // fwd: the block (NtC) / the block whose header is sent (NtN)
+	Origin  bool   `json:"origin,omitempty"`        // back: roll back to origin
+	DelayUs int    `json:"delay_us,omitempty"`      // server pause before this reply
+	Hold    bool   `json:"hold,omitempty"`          // do not flush after this reply: it shares a segment with the next
+	TipOrig bool   `json:"tip_origin,omitempty"`    // tip point is the origin
+	PtSpec  int    `json:"point_special,omitempty"` // back: 1..4 = special rollback point (slot 0 / 1 / 2^63 / 2^64-1 with an all-zero / all-0xff hash)
+	TipSpec int    `json:"tip_special,omitempty"`   // 1..3 = special tip (slot and block number 0 / 2^63 / 2^64-1, all-zero / all-0xff hash)
 }
+
+var (
+	zeroHash = make([]byte, 32)
+	ffHash   = bytes.Repeat([]byte{0xff}, 32)
+	// special rollback / intersect points; note that (0, 00..00) is not the origin
+	specPoints = []struct {
+		Slot uint64
+		Hash []byte
+	}{{0, zeroHash}, {1, ffHash}, {1 << 63, zeroHash}, {^uint64(0), ffHash}}
+	specTips = []csTip{{0, zeroHash, 0}, {1 << 63, ffHash, 1 << 63}, {^uint64(0), ffHash, ^uint64(0)}}
+)
 
 type c21Case struct {
 	NtN        bool     `json:"ntn"`
@@ -56,6 +69,13 @@ type c21Case struct {
 	HoldFwd    int      `json:"hold_in_decode"`   // pipeline: history index of a RollForward (followed by a RollBackward) whose block is held inside the decode worker until that rollback's callback fires or 1.5 s pass; -1: none
 	ClientPlan string   `json:"client_read_plan"`
 	ServerPlan string   `json:"server_read_plan"`
+	// history independence / failure steps (the same client object is used for all of it)
+	Pre       []string `json:"pre_steps,omitempty"`          // before the Sync, on the same client: "tip" GetCurrentTip, "notfound" a Sync answered IntersectNotFound, "range" GetAvailableBlockRange
+	IsectSpec bool     `json:"special_intersect,omitempty"`  // intersect points are special values
+	Scribble  bool     `json:"scribble_received,omitempty"`  // raw / rollback callbacks overwrite the byte slices they were handed (after copying them)
+	TipAt     int      `json:"get_current_tip_at,omitempty"` // another goroutine calls GetCurrentTip when this callback starts (0: never)
+	CbErrAt   int      `json:"callback_error_at,omitempty"`  // this callback returns an error (0: never); no Stop point is generated then
+	Restart   bool     `json:"restart_after_stop,omitempty"` // if Stop() ended the conversation with MsgDone: Start() again and Sync a second, short history
 }
 
 func effLimit(limit int) int {
@@ -86,12 +106,23 @@ func (c *c21Case) tip(i int) csTip {
 	if i >= 0 && i < len(c.History) && c.History[i].TipOrig {
 		t.Slot, t.Hash = 0, nil
 	}
+	if i >= 0 && i < len(c.History) && c.History[i].TipSpec > 0 {
+		sp := specTips[c.History[i].TipSpec-1]
+		// the block number stays unique per reply unless it is the special value itself
+		t.Slot, t.Hash = sp.Slot, sp.Hash
+		if c.History[i].TipSpec > 1 {
+			t.BlockNo = sp.BlockNo - uint64(i)
+		}
+	}
 	return t
 }
 
 func (c *c21Case) backPoint(i int) (uint64, []byte) {
 	if c.History[i].Origin {
 		return 0, nil
+	}
+	if sp := c.History[i].PtSpec; sp > 0 {
+		return specPoints[sp-1].Slot, specPoints[sp-1].Hash
 	}
 	h := c.h(i, "back")
 	return binary.BigEndian.Uint64(h[:8]) >> 24, c.h(i, "backhash")
@@ -142,6 +173,9 @@ func genC21(rt *rapid.T) c21Case {
 		if rapid.IntRange(0, 99).Draw(rt, l+"_k") < pBack {
 			it.Kind = "back"
 			it.Origin = rapid.IntRange(0, 7).Draw(rt, l+"_origin") == 0
+			if !it.Origin && rapid.IntRange(0, 5).Draw(rt, l+"_ptspec") == 0 {
+				it.PtSpec = rapid.IntRange(1, len(specPoints)).Draw(rt, l+"_ptspecv")
+			}
 		} else {
 			it.Blk = blkRef{Fixture: rapid.IntRange(0, nb-1).Draw(rt, l+"_fx"), Salt: uint64(rapid.IntRange(0, 3).Draw(rt, l+"_salt"))}
 			if it.Blk.Salt != 0 {
@@ -154,6 +188,9 @@ func genC21(rt *rapid.T) c21Case {
 		}
 		it.Hold = rapid.IntRange(0, 99).Draw(rt, l+"_h") < pHold
 		it.TipOrig = rapid.IntRange(0, 49).Draw(rt, l+"_to") == 0
+		if !it.TipOrig && rapid.IntRange(0, 24).Draw(rt, l+"_tipspec") == 0 {
+			it.TipSpec = rapid.IntRange(1, len(specTips)).Draw(rt, l+"_tipspecv")
+		}
 		c.History = append(c.History, it)
 	}
 	c.CbDelayUs = rapid.SliceOfN(rapid.SampledFrom([]int{0, 0, 0, 0, 1, 30, 300, 1500}), 1, 5).Draw(rt, "cbdelays")
@@ -167,6 +204,22 @@ func genC21(rt *rapid.T) c21Case {
 		c.Pipeline = true
 		c.PipeWorker = rapid.IntRange(1, 4).Draw(rt, "pipeworkers")
 		c.PipeBuf = rapid.SampledFrom([]int{1, 2, 16, 1000}).Draw(rt, "pipebuf")
+	}
+	npre := rapid.SampledFrom([]int{0, 0, 0, 1, 1, 2}).Draw(rt, "npre")
+	for i := 0; i < npre; i++ {
+		c.Pre = append(c.Pre, rapid.SampledFrom([]string{"tip", "notfound", "range"}).Draw(rt, fmt.Sprintf("pre%d", i)))
+	}
+	c.IsectSpec = rapid.IntRange(0, 3).Draw(rt, "isectspec") == 0
+	c.Scribble = rapid.IntRange(0, 2).Draw(rt, "scribble") == 0
+	if !c.Pipeline {
+		if rapid.IntRange(0, 3).Draw(rt, "tipat") == 0 {
+			c.TipAt = rapid.IntRange(1, n).Draw(rt, "tipatv")
+		}
+		if rapid.IntRange(0, 7).Draw(rt, "cberr") == 0 {
+			c.CbErrAt = rapid.IntRange(1, n).Draw(rt, "cberrv")
+			c.StopAfter = -1
+		}
+		c.Restart = rapid.Bool().Draw(rt, "restart")
 	}
 	c.HoldFwd = -1
 	if c.Pipeline && rapid.IntRange(0, 2).Draw(rt, "hold") == 0 {
@@ -221,6 +274,29 @@ type csServer struct {
 	viol    string
 	unexp   string
 	pend    []byte
+	queue   []byte  // client requests not yet answered, in arrival order: 'R' RequestNext, 'F' FindIntersect (a concurrent GetCurrentTip)
+	nF      int     // FindIntersect messages seen / answered
+	tips    []csTip // tips sent in IntersectNotFound replies
+}
+
+func (s *csServer) hasF() bool {
+	for _, k := range s.queue {
+		if k == 'F' {
+			return true
+		}
+	}
+	return false
+}
+
+// answerF answers FindIntersect requests that are at the head of the queue.
+func (s *csServer) answerF() {
+	for len(s.queue) > 0 && s.queue[0] == 'F' {
+		s.queue = s.queue[1:]
+		t := s.c.tip(-100 - s.nF)
+		s.nF++
+		s.tips = append(s.tips, t)
+		s.pend = append(s.pend, xcbor.A(xcbor.U(6), t.node()).Encode()...)
+	}
 }
 
 // pump consumes every client message that is available (waiting up to d for the
@@ -243,6 +319,7 @@ func (s *csServer) pump(wait bool, d time.Duration) {
 		switch {
 		case perr == nil && n.Kind == xcbor.Array && len(n.Items) == 1 && n.Items[0].Kind == xcbor.Uint && n.Items[0].Arg == 0:
 			s.reqs++
+			s.queue = append(s.queue, 'R')
 			out := s.reqs - s.flushed
 			if out > s.maxOut {
 				s.maxOut = out
@@ -253,6 +330,8 @@ func (s *csServer) pump(wait bool, d time.Duration) {
 		case perr == nil && n.Kind == xcbor.Array && len(n.Items) == 1 && n.Items[0].Kind == xcbor.Uint && n.Items[0].Arg == 7:
 			s.done = true
 			return
+		case perr == nil && n.Kind == xcbor.Array && len(n.Items) == 2 && n.Items[0].Kind == xcbor.Uint && n.Items[0].Arg == 4 && s.c.TipAt > 0:
+			s.queue = append(s.queue, 'F')
 		default:
 			if s.unexp == "" {
 				s.unexp = fmt.Sprintf("unexpected client message %x after %d requests", m, s.reqs)
@@ -274,6 +353,10 @@ func (s *csServer) flush() error {
 // reply answers one outstanding request with item i.
 func (s *csServer) reply(i int) error {
 	it := s.c.item(i)
+	s.answerF()
+	if len(s.queue) > 0 && s.queue[0] == 'R' {
+		s.queue = s.queue[1:]
+	}
 	if it.DelayUs > 0 {
 		if err := s.flush(); err != nil {
 			return err
@@ -313,7 +396,27 @@ type csEvent struct {
 	Slot  uint64 // back: point
 	PHash []byte
 	Tip   csTip
+	// the very values the library handed over (not copied), re-read at the end
+	keep  []byte // raw roll-forward payload
+	keepP []byte // rollback point hash
+	keepT []byte // tip hash
+	obj   any    // decoded block / header
 }
+
+func cpBytes(b []byte) []byte {
+	if b == nil {
+		return nil
+	}
+	return append([]byte{}, b...)
+}
+
+func scribble(b []byte) {
+	for i := range b {
+		b[i] = 0xEE
+	}
+}
+
+var errHarnessSyncCallback = errors.New("harness: the callback refuses this message")
 
 type csLog struct {
 	mu        sync.Mutex
@@ -326,13 +429,16 @@ type csLog struct {
 	stopRet   bool
 	entered   int
 	afterStop int
+	tipAt     int
+	tipSig    chan struct{}
+	tipOnce   sync.Once
 }
 
-func (l *csLog) enter() { l.enterKind(false) }
+func (l *csLog) enter() int { return l.enterKind(false) }
 
 // enterKind: apply marks a call of the pipeline's apply function, which is
 // asynchronous to the client by design and therefore may run after Stop().
-func (l *csLog) enterKind(apply bool) {
+func (l *csLog) enterKind(apply bool) int {
 	l.mu.Lock()
 	// own counter: with a block pipeline the apply function and the rollback
 	// callback can run concurrently, len(l.ev) would give both the same number
@@ -352,6 +458,10 @@ func (l *csLog) enterKind(apply bool) {
 	case d > 1:
 		time.Sleep(time.Duration(d) * time.Microsecond)
 	}
+	if l.tipAt > 0 && n == l.tipAt {
+		l.tipOnce.Do(func() { close(l.tipSig) })
+	}
+	return n
 }
 
 func (l *csLog) add(e csEvent) {
@@ -359,6 +469,12 @@ func (l *csLog) add(e csEvent) {
 	l.ev = append(l.ev, e)
 	l.cond.Broadcast()
 	l.mu.Unlock()
+}
+
+func (l *csLog) afterStopCount() int {
+	l.mu.Lock()
+	defer l.mu.Unlock()
+	return l.afterStop
 }
 
 func (l *csLog) snapshot() []csEvent {
@@ -381,7 +497,7 @@ func (l *csLog) waitLen(n int, d time.Duration, abort func() bool) int {
 }
 
 func libTip(t chainsync.Tip) csTip {
-	return csTip{Slot: t.Point.Slot, Hash: t.Point.Hash, BlockNo: t.BlockNumber}
+	return csTip{Slot: t.Point.Slot, Hash: cpBytes(t.Point.Hash), BlockNo: t.BlockNumber}
 }
 
 func tipEq(a, b csTip) bool {
@@ -462,7 +578,7 @@ func TestC21(t *testing.T) {
 	defer protocol.SetVerifTracer(nil)
 	defer pipeline.SetVerifStageHook(nil)
 	rec := evi.New(t, "C21", evi.Exploration,
-		"one Sync per case on a real NtC or NtN connection against a scripted raw chain-sync server: history of 1..400 replies, each RollForward (a real block / its header, fixtures of every era and salted variants) or RollBackward (random point or origin), optionally preceded by AwaitReply, each with its own tip; pipeline limit from {0,1,2,5,75,100}; raw or decoded callback; NtC optionally through a pipeline.BlockPipeline (1..4 decode workers, buffer 1..1000; optionally one block held inside the decode worker until the next rollback callback fires); generated callback delays, server pauses, reply grouping into segments, read fragmentation; Stop() after the whole history or when a generated callback starts (then the server keeps answering outstanding requests). Non-trivial: >= 3 replies. Distinct by (mode, limit, callback kind, pipeline parameters, history shape, stop point).")
+		"one Sync per case on a real NtC or NtN connection against a scripted raw chain-sync server: history of 1..400 replies, each RollForward (a real block / its header, fixtures of every era and salted variants) or RollBackward (random point or origin), optionally preceded by AwaitReply, each with its own tip; pipeline limit from {0,1,2,5,75,100}; raw or decoded callback; NtC optionally through a pipeline.BlockPipeline (1..4 decode workers, buffer 1..1000; optionally one block held inside the decode worker until the next rollback callback fires); generated callback delays, server pauses, reply grouping into segments, read fragmentation; Stop() after the whole history or when a generated callback starts (then the server keeps answering outstanding requests). The same client object first optionally runs GetCurrentTip / a Sync answered IntersectNotFound / GetAvailableBlockRange, may be asked for the current tip by a second goroutine mid-sync, may have a callback return an error, and after a Stop() that ended with MsgDone is started again for a second short history; rollback and intersect points and tips include slot/block number 0, 1, 2^63, 2^64-1 with all-zero/all-0xff hashes; every value handed to a callback is retained (or overwritten by the callback) and re-checked at the end. 10 fixed histories of these classes run first at every seed. Non-trivial: >= 3 replies. Distinct by (mode, limit, callback kind, pipeline parameters, history shape, stop point, pre-steps).")
 	defer rec.Finish()
 	rec.Assume(
 		"pipeline limit 0 is 'unset' and means the documented default 75 (chainsync.NewClient)",
@@ -471,6 +587,18 @@ func TestC21(t *testing.T) {
 		"bounded liveness: no progress for 25 s = stall; Stop() not returning for 15 s (its own timers are 250 ms and 5 s) = hang; 3 s after Stop() returned with nothing owed by the server, neither MsgDone nor the end of the connection = conversation left open",
 		"with a block pipeline the apply function takes the place of the roll-forward callback and may legitimately run after Stop() returned",
 	)
+	for _, fc := range fixedC21Cases() {
+		fc := fc
+		ok := runFixed(func() {
+			rec.Class("fixed_sweep")
+			runC21(fixedTB{t}, rec, &fc.cs, nil, nil)
+		})
+		if !ok {
+			fmt.Printf("fixed C21 case %q failed\n", fc.name)
+			return
+		}
+	}
+
 	rec.Check(func(rt *rapid.T) {
 		cs := genC21(rt)
 		pc, ps := genPlan(rt, "client"), genPlan(rt, "server")
@@ -481,6 +609,48 @@ func TestC21(t *testing.T) {
 			fmt.Printf("TIMING %.3f n=%d ntn=%v limit=%d raw=%v stop=%d cb=%v pc=%s ps=%s\n", time.Since(t0).Seconds(), len(cs.History), cs.NtN, cs.Limit, cs.Raw, cs.StopAfter, cs.CbDelayUs, cs.ClientPlan, cs.ServerPlan)
 		}
 	})
+}
+
+// ---- deterministic sweep ------------------------------------------------------------
+
+type namedC21 struct {
+	name string
+	cs   c21Case
+}
+
+func fixedC21Cases() []namedC21 {
+	f := func(fx int) csItem { return csItem{Kind: "fwd", Blk: blkRef{Fixture: fx}} }
+	b := func(spec int) csItem { return csItem{Kind: "back", PtSpec: spec} }
+	aw := func(it csItem) csItem { it.Await = true; return it }
+	tipSpec := func(it csItem, k int) csItem { it.TipSpec = k; return it }
+	orig := csItem{Kind: "back", Origin: true}
+	mk := func(name string, c c21Case) namedC21 {
+		if c.CbDelayUs == nil {
+			c.CbDelayUs = []int{0}
+		}
+		if c.StopAfter == 0 {
+			c.StopAfter = -1
+		}
+		c.HoldFwd = -1
+		c.Seed = uint64(len(name)) * 7919
+		return namedC21{name, c}
+	}
+	return []namedC21{
+		// special rollback points / tips, AwaitReply before a RollBackward, rollback right after a roll-forward
+		mk("special-points:ntc", c21Case{Limit: 2, Raw: true, History: []csItem{aw(f(2)), aw(b(1)), f(3), orig, tipSpec(aw(b(4)), 3), tipSpec(f(0), 1), b(2), tipSpec(b(3), 2), f(9)}}),
+		mk("special-points:ntn", c21Case{NtN: true, Limit: 5, Intersect: 2, IsectSpec: true, History: []csItem{f(4), aw(b(1)), f(5), aw(b(2)), b(3), tipSpec(f(6), 2), b(4), tipSpec(orig, 3), f(7)}}),
+		// other operations on the same client before the Sync
+		mk("pre-steps:ntc", c21Case{Limit: 1, Pre: []string{"tip", "notfound", "range"}, Intersect: 1, History: []csItem{f(2), b(0), f(3)}}),
+		mk("pre-steps:ntn", c21Case{NtN: true, Limit: 2, Raw: true, Pre: []string{"range", "notfound", "range"}, IsectSpec: true, Intersect: 3, History: []csItem{b(1), f(8), f(1), aw(b(0))}}),
+		// callbacks that overwrite what they were handed; values retained by callbacks
+		mk("scribble:ntn", c21Case{NtN: true, Limit: 5, Raw: true, Scribble: true, History: []csItem{f(2), f(3), b(1), f(4), b(0), f(5), f(2)}}),
+		mk("scribble:ntc", c21Case{Limit: 75, Raw: true, Scribble: true, History: []csItem{f(9), b(0), f(9), b(2), f(0)}}),
+		mk("retain:ntn-decoded", c21Case{NtN: true, Limit: 100, History: []csItem{f(2), b(0), f(3), b(0), f(4), f(5), b(0), f(6), f(7), f(8), f(9)}}),
+		// failure steps and a concurrent caller
+		mk("callback-error", c21Case{Limit: 2, Raw: true, CbErrAt: 2, History: []csItem{f(2), b(0), f(3), f(4)}}),
+		mk("concurrent-tip", c21Case{NtN: true, Limit: 5, TipAt: 2, History: []csItem{f(2), f(3), b(0), f(4), f(5), f(6)}}),
+		mk("restart", c21Case{Limit: 1, Raw: true, Restart: true, History: []csItem{f(2), b(0)}}),
+	}
 }
 
 func runC21(rt tb, rec *evi.Recorder, cs *c21Case, pc, ps rawpeer.Plan) {
@@ -500,8 +670,23 @@ func runC21(rt tb, rec *evi.Recorder, cs *c21Case, pc, ps rawpeer.Plan) {
 	if skipStop {
 		cs.StopAfter = -1
 	}
-	log := &csLog{delays: cs.CbDelayUs, stopAt: cs.StopAfter, stopSig: make(chan struct{})}
+	log := &csLog{delays: cs.CbDelayUs, stopAt: cs.StopAfter, stopSig: make(chan struct{}), tipAt: cs.TipAt, tipSig: make(chan struct{})}
 	log.cond = sync.NewCond(&log.mu)
+	// finish: what a direct callback does with the values it was handed
+	finish := func(n int, e csEvent, data []byte, p pcommon.Point, tip chainsync.Tip) error {
+		if cs.Scribble {
+			scribble(data)
+			scribble(p.Hash)
+			scribble(tip.Point.Hash)
+		} else {
+			e.keep, e.keepP, e.keepT = data, p.Hash, tip.Point.Hash
+		}
+		log.add(e)
+		if cs.CbErrAt > 0 && n == cs.CbErrAt {
+			return errHarnessSyncCallback
+		}
+		return nil
+	}
 	opts := []chainsync.ChainSyncOptionFunc{
 		chainsync.WithPipelineLimit(cs.Limit),
 		chainsync.WithIntersectTimeout(120 * time.Second),
@@ -509,29 +694,26 @@ func runC21(rt tb, rec *evi.Recorder, cs *c21Case, pc, ps rawpeer.Plan) {
 			if h := c21Hold.Load(); h != nil && h.held.Load() {
 				h.free()
 			}
-			log.enter()
-			log.add(csEvent{Kind: "back", Slot: p.Slot, PHash: p.Hash, Tip: libTip(tip)})
-			return nil
+			n := log.enter()
+			return finish(n, csEvent{Kind: "back", Slot: p.Slot, PHash: cpBytes(p.Hash), Tip: libTip(tip)}, nil, p, tip)
 		}),
 	}
 	if cs.Raw {
 		opts = append(opts, chainsync.WithRollForwardRawFunc(func(_ chainsync.CallbackContext, typ uint, data []byte, tip chainsync.Tip) error {
-			log.enter()
-			log.add(csEvent{Kind: "fwd", Type: typ, Bytes: append([]byte(nil), data...), Tip: libTip(tip)})
-			return nil
+			n := log.enter()
+			return finish(n, csEvent{Kind: "fwd", Type: typ, Bytes: append([]byte(nil), data...), Tip: libTip(tip)}, data, pcommon.Point{}, tip)
 		}))
 	} else {
 		opts = append(opts, chainsync.WithRollForwardFunc(func(_ chainsync.CallbackContext, typ uint, data any, tip chainsync.Tip) error {
-			log.enter()
-			e := csEvent{Kind: "fwd", Type: typ, Tip: libTip(tip)}
+			n := log.enter()
+			e := csEvent{Kind: "fwd", Type: typ, Tip: libTip(tip), obj: data}
 			switch v := data.(type) {
 			case ledger.Block:
 				e.Bytes, e.Hash = append([]byte(nil), v.Cbor()...), v.Hash().Bytes()
 			case ledger.BlockHeader:
 				e.Bytes, e.Hash = append([]byte(nil), v.Cbor()...), v.Hash().Bytes()
 			}
-			log.add(e)
-			return nil
+			return finish(n, e, nil, pcommon.Point{}, tip)
 		}))
 	}
 	if cs.Pipeline && cs.HoldFwd >= 0 {
@@ -592,10 +774,15 @@ func runC21(rt tb, rec *evi.Recorder, cs *c21Case, pc, ps rawpeer.Plan) {
 		opts = append(opts, chainsync.WithPipeline(pl))
 	}
 	cfg := chainsync.NewConfig(opts...)
+	dialT0 := time.Now()
 	s, err := dial(cs.NtN, pc, ps, ouroboros.WithChainSyncConfig(cfg))
 	if err != nil {
 		rt.Fatalf("harness: dial: %v", err)
 	}
+	// load factor 1..6: the connection set-up takes 1-3 ms on an idle machine;
+	// the liveness bounds grow with it so that slowness is never read as a hang
+	lf := max(1, min(time.Since(dialT0)/(10*time.Millisecond), 6))
+	stallBound, stopBound := c21Bound*lf, c21StopBound*lf
 	closed := false
 	defer func() {
 		if !closed {
@@ -623,21 +810,111 @@ func runC21(rt tb, rec *evi.Recorder, cs *c21Case, pc, ps rawpeer.Plan) {
 		return rec.Fail(rt, key, what, obj)
 	}
 
+	// ---- intersect points ----
+	mkPoints := func(base, k int) ([]pcommon.Point, []*xcbor.Node) {
+		var pts []pcommon.Point
+		var nodes []*xcbor.Node
+		for i := 0; i < k; i++ {
+			h := cs.h(base-i, "isect")
+			slot := binary.BigEndian.Uint64(h[:8]) >> 24
+			if cs.IsectSpec {
+				sp := specPoints[(i+int(cs.Seed%4))%len(specPoints)]
+				slot, h = sp.Slot, sp.Hash
+			}
+			pts = append(pts, pcommon.NewPoint(slot, cpBytes(h)))
+			nodes = append(nodes, pointNode(slot, h))
+		}
+		if len(nodes) == 0 {
+			nodes = []*xcbor.Node{xcbor.A()} // the client substitutes the origin
+		}
+		return pts, nodes
+	}
+
+	// ---- steps before the Sync, on the same client object ----
+	// They are outside the statement (their own results are not judged); what is
+	// judged is that the Sync that follows delivers exactly its own history.
+	bail := func(what string) { rec.Class("pre_step_" + what) }
+	expect := func(want []byte) bool {
+		m, err := s.peer.NextMsg(proto, false, stallBound)
+		return err == nil && sameValue(m, want)
+	}
+	for k, kind := range cs.Pre {
+		ppts, pnodes := mkPoints(-200-10*k, 1+k)
+		rec.Class("pre:" + kind)
+		switch kind {
+		case "tip":
+			ch := make(chan error, 1)
+			go func() { _, err := client.GetCurrentTip(); ch <- err }()
+			if !expect(xcbor.A(xcbor.U(4), xcbor.A()).Encode()) {
+				bail("unexpected_message")
+				return
+			}
+			_ = s.peer.SendMsg(proto, true, xcbor.A(xcbor.U(6), cs.tip(-300-k).node()).Encode())
+			select {
+			case <-ch:
+			case <-time.After(stallBound):
+				bail("no_return")
+				return
+			}
+		case "notfound":
+			ch := make(chan error, 1)
+			go func() { ch <- client.Sync(ppts) }()
+			if !expect(xcbor.A(xcbor.U(4), xcbor.A(pnodes...)).Encode()) {
+				bail("unexpected_message")
+				return
+			}
+			_ = s.peer.SendMsg(proto, true, xcbor.A(xcbor.U(6), cs.tip(-300-k).node()).Encode())
+			select {
+			case err := <-ch:
+				if err == nil {
+					bail("notfound_returned_nil")
+					return
+				}
+			case <-time.After(stallBound):
+				bail("no_return")
+				return
+			}
+		case "range":
+			ch := make(chan error, 1)
+			go func() { _, _, err := client.GetAvailableBlockRange(ppts); ch <- err }()
+			if !expect(xcbor.A(xcbor.U(4), xcbor.A(pnodes...)).Encode()) {
+				bail("unexpected_message")
+				return
+			}
+			far := csTip{Slot: ^uint64(0), Hash: cs.h(-300-k, "far"), BlockNo: 9}
+			_ = s.peer.SendMsg(proto, true, xcbor.A(xcbor.U(5), pnodes[0], far.node()).Encode())
+			if ppts[0].Slot < far.Slot {
+				// the client asks for the rollback and the first block after the intersection
+				if !expect(xcbor.A(xcbor.U(0)).Encode()) {
+					bail("unexpected_message")
+					return
+				}
+				_ = s.peer.SendMsg(proto, true, xcbor.A(xcbor.U(3), pnodes[0], far.node()).Encode())
+				if !expect(xcbor.A(xcbor.U(0)).Encode()) {
+					bail("unexpected_message")
+					return
+				}
+				_ = s.peer.SendMsg(proto, true, rollForwardBytes(cs.NtN, bases()[2], far))
+			}
+			select {
+			case <-ch:
+			case <-time.After(stallBound):
+				bail("no_return")
+				return
+			}
+		}
+	}
+	if n := log.waitLen(0, 0, nil); n != 0 {
+		fail("callback-from-earlier-operation:"+mode, fmt.Sprintf("%d callback(s) fired during %v, before Sync was called", n, cs.Pre), nil)
+		return
+	}
+	handledBase := trace.handled.Load()
+
 	// ---- intersect ----
-	var pts []pcommon.Point
-	var ptNodes []*xcbor.Node
-	for i := 0; i < cs.Intersect; i++ {
-		h := cs.h(-1-i, "isect")
-		slot := binary.BigEndian.Uint64(h[:8]) >> 24
-		pts = append(pts, pcommon.NewPoint(slot, h))
-		ptNodes = append(ptNodes, pointNode(slot, h))
-	}
-	if len(ptNodes) == 0 {
-		ptNodes = []*xcbor.Node{xcbor.A()} // Sync substitutes the origin
-	}
+	pts, ptNodes := mkPoints(-1, cs.Intersect)
 	syncErr := make(chan error, 1)
 	go func() { syncErr <- client.Sync(pts) }()
-	m, err := s.peer.NextMsg(proto, false, c21Bound)
+	m, err := s.peer.NextMsg(proto, false, stallBound)
 	if err != nil {
 		fail("sync:no-find-intersect", fmt.Sprintf("no FindIntersect on the wire: %v", err), map[string]any{"goroutines": goroutineDump(fmt.Sprintf("%p", client), "chainsync")})
 		return
@@ -657,7 +934,7 @@ func runC21(rt tb, rec *evi.Recorder, cs *c21Case, pc, ps rawpeer.Plan) {
 			fail("sync:error", fmt.Sprintf("Sync failed after IntersectFound: %v", err), nil)
 			return
 		}
-	case <-time.After(c21Bound):
+	case <-time.After(stallBound):
 		fail("sync:hang", "Sync did not return after IntersectFound", map[string]any{"goroutines": goroutineDump(fmt.Sprintf("%p", client), "chainsync")})
 		return
 	}
@@ -682,6 +959,17 @@ func runC21(rt tb, rec *evi.Recorder, cs *c21Case, pc, ps rawpeer.Plan) {
 		stopCh <- stopRes{err, n}
 	}()
 
+	// ---- a concurrent caller on the same client ----
+	tipRet := make(chan error, 1)
+	if cs.TipAt > 0 {
+		rec.Class("concurrent_get_current_tip")
+		go func() {
+			<-log.tipSig
+			_, err := client.GetCurrentTip()
+			tipRet <- err
+		}()
+	}
+
 	// ---- serve the history ----
 	srv := &csServer{p: s.peer, proto: proto, c: cs, bound: max(1, effLimit(cs.Limit))}
 	n := len(cs.History)
@@ -689,8 +977,12 @@ func runC21(rt tb, rec *evi.Recorder, cs *c21Case, pc, ps rawpeer.Plan) {
 	// compareLog: the callback log is the server's history, in order, one
 	// callback per reply, each with the tip its reply carried. Returns false
 	// when an unlisted violation was reported.
+	logLimit := -1 // >= 0: only the first logLimit callbacks belong to the first conversation
 	compareLog := func(stopped bool) bool {
 		evs := log.snapshot()
+		if logLimit >= 0 && len(evs) > logLimit {
+			evs = evs[:logLimit]
+		}
 		if len(evs) > srv.sent {
 			fail("callback-extra:"+mode, fmt.Sprintf("%d callbacks for %d replies", len(evs), srv.sent), nil)
 			return false
@@ -699,7 +991,9 @@ func runC21(rt tb, rec *evi.Recorder, cs *c21Case, pc, ps rawpeer.Plan) {
 			fail("callback-missing:"+mode, fmt.Sprintf("%d callbacks although Stop was triggered by callback %d", len(evs), cs.StopAfter), nil)
 			return false
 		}
-		if cs.StopAfter < 0 && len(evs) < n {
+		if cs.CbErrAt > 0 && len(evs) >= cs.CbErrAt {
+			// the refused message ends the delivery: what was delivered must be right
+		} else if cs.StopAfter < 0 && len(evs) < n {
 			fail("callback-missing:"+mode, fmt.Sprintf("%d callbacks for a history of %d replies", len(evs), n), nil)
 			return false
 		}
@@ -721,6 +1015,33 @@ func runC21(rt tb, rec *evi.Recorder, cs *c21Case, pc, ps rawpeer.Plan) {
 				}
 				kind := strings.SplitN(msg, ":", 2)[0]
 				if !fail(fmt.Sprintf("callback-%s:%s", kind, mode), fmt.Sprintf("callback %d of %d: %s", k, len(evs), msg), map[string]any{"index": k}) {
+					return false
+				}
+			}
+		}
+		// every value handed to a callback still is what it was when handed over
+		for k, e := range evs {
+			what := ""
+			switch {
+			case e.keep != nil && !bytes.Equal(e.keep, e.Bytes):
+				what = "the raw payload slice"
+			case e.keepP != nil && !bytes.Equal(e.keepP, e.PHash):
+				what = "the rollback point's hash"
+			case e.keepT != nil && !bytes.Equal(e.keepT, e.Tip.Hash):
+				what = "the tip's hash"
+			}
+			switch v := e.obj.(type) {
+			case ledger.Block:
+				if !bytes.Equal(v.Cbor(), e.Bytes) || !bytes.Equal(v.Hash().Bytes(), e.Hash) {
+					what = "the decoded block"
+				}
+			case ledger.BlockHeader:
+				if !bytes.Equal(v.Cbor(), e.Bytes) || !bytes.Equal(v.Hash().Bytes(), e.Hash) {
+					what = "the decoded header"
+				}
+			}
+			if what != "" {
+				if !fail("callback-value-changed-later:"+mode, fmt.Sprintf("%s handed to callback %d of %d was modified after the callback returned (later messages overwrote it)", what, k, len(evs)), map[string]any{"index": k}) {
 					return false
 				}
 			}
@@ -771,7 +1092,16 @@ func runC21(rt tb, rec *evi.Recorder, cs *c21Case, pc, ps rawpeer.Plan) {
 			}
 			close(stopNow)
 		}
-		if srv.reqs > srv.sent && (i < n || (stopRequested() && i < fillerCap)) {
+		if len(srv.queue) > 0 && srv.queue[0] == 'F' {
+			srv.answerF()
+			if err := srv.flush(); err != nil {
+				srv.closed = true
+				break
+			}
+			lastProgress = time.Now()
+			continue
+		}
+		if srv.reqs > srv.sent && (i < n || ((stopRequested() || srv.hasF()) && i < fillerCap)) {
 			if err := srv.reply(i); err != nil {
 				srv.closed = true
 				break
@@ -800,11 +1130,11 @@ func runC21(rt tb, rec *evi.Recorder, cs *c21Case, pc, ps rawpeer.Plan) {
 				break
 			}
 		}
-		if stopRequested() && !stopReturned && time.Since(lastProgress) > c21StopBound {
+		if stopRequested() && !stopReturned && time.Since(lastProgress) > stopBound {
 			idle = "stop:hang"
 			break
 		}
-		if time.Since(lastProgress) > c21Bound {
+		if time.Since(lastProgress) > stallBound {
 			switch {
 			case stopReturned:
 				idle = "stop:conversation-not-ended"
@@ -841,16 +1171,16 @@ func runC21(rt tb, rec *evi.Recorder, cs *c21Case, pc, ps rawpeer.Plan) {
 	switch idle {
 	case "stall":
 		fail(fmt.Sprintf("stall:%s:%s", mode, lim),
-			fmt.Sprintf("no progress for %v: %d of %d replies sent, %d RequestNext seen, %d callbacks fired, Stop not requested", c21Bound, srv.sent, n, srv.reqs, log.waitLen(0, 0, nil)), dump())
+			fmt.Sprintf("no progress for %v: %d of %d replies sent, %d RequestNext seen, %d callbacks fired, Stop not requested", stallBound, srv.sent, n, srv.reqs, log.waitLen(0, 0, nil)), dump())
 		return
 	case "stop:hang":
 		k := stopHangKey(mode, lim)
 		noteStopHang(k)
-		fail(k, fmt.Sprintf("Stop() did not return: no progress for %v after it was called (%d RequestNext seen, %d replies sent, %d callbacks)", c21StopBound, srv.reqs, srv.sent, log.waitLen(0, 0, nil)), dump())
+		fail(k, fmt.Sprintf("Stop() did not return: no progress for %v after it was called (%d RequestNext seen, %d replies sent, %d callbacks)", stopBound, srv.reqs, srv.sent, log.waitLen(0, 0, nil)), dump())
 		return
 	case "stop:conversation-not-ended":
 		// requests the client sent whose replies never reached a handler
-		inflight := srv.reqs - int(trace.handled.Load())
+		inflight := srv.reqs - int(trace.handled.Load()-handledBase)
 		cls := "requests-in-flight"
 		if inflight <= 0 {
 			cls = "client-idle"
@@ -859,7 +1189,7 @@ func runC21(rt tb, rec *evi.Recorder, cs *c21Case, pc, ps rawpeer.Plan) {
 		noteNotEnded(key)
 		if !fail(key,
 			fmt.Sprintf("Stop() returned (err=%v) but the server saw neither MsgDone nor the end of the connection: the client sent %d RequestNext, the server answered all %d, the client handled %d replies (%d requests in flight); the conversation is simply abandoned and the connection stays open",
-				sr.err, srv.reqs, srv.sent, trace.handled.Load(), inflight), dump()) {
+				sr.err, srv.reqs, srv.sent, trace.handled.Load()-handledBase, inflight), dump()) {
 			return
 		}
 		rec.Class("stop_left_conversation_open")
@@ -874,6 +1204,25 @@ func runC21(rt tb, rec *evi.Recorder, cs *c21Case, pc, ps rawpeer.Plan) {
 		}
 		return
 	}
+	if cs.CbErrAt > 0 && !stopRequested() && log.waitLen(0, 0, nil) >= cs.CbErrAt {
+		// a callback refused its message: the client may end the conversation;
+		// what it delivered must be right and Stop() must still return
+		rec.Class("callback_error_ended_conversation")
+		close(stopNow)
+		select {
+		case sr = <-stopCh:
+		case <-time.After(stopBound):
+			fail("stop:hang-after-callback-error:"+mode, fmt.Sprintf("Stop() did not return within %v after a callback error ended the conversation", stopBound), dump())
+			return
+		}
+		s.close()
+		closed = true
+		stopPipeline()
+		if compareLog(false) && n >= 3 {
+			rec.NonTrivial(caseKey(cs), caseSummary(cs))
+		}
+		return
+	}
 	if !stopRequested() {
 		fail("unexpected-end:"+mode, fmt.Sprintf("the client ended the conversation (MsgDone=%v, connection closed=%v) after %d of %d replies although Stop was not called", srv.done, srv.closed, srv.sent, n), nil)
 		return
@@ -881,10 +1230,10 @@ func runC21(rt tb, rec *evi.Recorder, cs *c21Case, pc, ps rawpeer.Plan) {
 	if !stopReturned {
 		select {
 		case sr = <-stopCh:
-		case <-time.After(c21StopBound):
+		case <-time.After(stopBound):
 			k := stopHangKey(mode, lim)
 			noteStopHang(k)
-			fail(k, fmt.Sprintf("Stop() did not return within %v after the conversation ended", c21StopBound), dump())
+			fail(k, fmt.Sprintf("Stop() did not return within %v after the conversation ended", stopBound), dump())
 			return
 		}
 	}
@@ -897,6 +1246,82 @@ func runC21(rt tb, rec *evi.Recorder, cs *c21Case, pc, ps rawpeer.Plan) {
 	if sr.err != nil {
 		rec.Class("stop_returned_error")
 	}
+	if cs.TipAt > 0 {
+		select {
+		case <-tipRet:
+			rec.Class("concurrent_get_current_tip_returned")
+		case <-time.After(300 * time.Millisecond):
+			rec.Class("concurrent_get_current_tip_still_blocked")
+		}
+	}
+	firstLen := len(log.snapshot())
+	restarted := false
+	if cs.Restart && srv.done && !cs.Pipeline && log.afterStopCount() == 0 && firstLen == sr.atLen {
+		// The conversation ended with MsgDone: the same client object is started
+		// again and must deliver a second history exactly as a fresh one would.
+		restarted = true
+		logLimit = firstLen
+		rec.Class("restart_second_sync")
+		log.mu.Lock()
+		log.stopRet = false
+		log.mu.Unlock()
+		client.Start()
+		const base = 5000 // replies 5000.. are RollForwards of a fixture block with their own tips
+		n2 := 2 + int(cs.Seed%7)
+		pts2, nodes2 := mkPoints(-50, 1)
+		ch := make(chan error, 1)
+		go func() { ch <- client.Sync(pts2) }()
+		if !expect(xcbor.A(xcbor.U(4), xcbor.A(nodes2...)).Encode()) {
+			fail("restart:no-find-intersect:"+mode, "after Stop() (MsgDone sent) and Start() a second Sync put no matching FindIntersect on the wire", dump())
+			return
+		}
+		_ = s.peer.SendMsg(proto, true, xcbor.A(xcbor.U(5), nodes2[0], cs.tip(-51).node()).Encode())
+		select {
+		case err := <-ch:
+			if err != nil {
+				fail("restart:sync-error:"+mode, fmt.Sprintf("second Sync on the restarted client failed: %v", err), nil)
+				return
+			}
+		case <-time.After(stallBound):
+			fail("restart:sync-hang:"+mode, "second Sync on the restarted client did not return", dump())
+			return
+		}
+		srv2 := &csServer{p: s.peer, proto: proto, c: cs, bound: srv.bound}
+		deadline := time.Now().Add(stallBound)
+		for j := 0; j < n2 && time.Now().Before(deadline) && !srv2.closed && !srv2.done; {
+			srv2.pump(true, 5*time.Millisecond)
+			if srv2.reqs > srv2.sent {
+				if err := srv2.reply(base + j); err != nil {
+					break
+				}
+				j++
+			}
+		}
+		_ = srv2.flush()
+		got := log.waitLen(firstLen+n2, stallBound, nil)
+		if srv2.viol != "" {
+			if !fail(fmt.Sprintf("pipeline-limit-exceeded:%s:%s", mode, lim), "after a restart: "+srv2.viol, nil) {
+				return
+			}
+		}
+		if got < firstLen+n2 {
+			fail("restart:callback-missing:"+mode, fmt.Sprintf("restarted client: %d callbacks for %d replies of the second history (requests seen %d)", got-firstLen, srv2.sent, srv2.reqs), dump())
+			return
+		}
+		evs2 := log.snapshot()[firstLen:]
+		for k, e := range evs2 {
+			if k >= n2 {
+				break
+			}
+			if msg := cmpEvent(cs, base+k, cs.item(base+k), e); msg != "" {
+				if !fail("restart:callback-"+strings.SplitN(msg, ":", 2)[0]+":"+mode, fmt.Sprintf("restarted client, callback %d of the second history: %s", k, msg), nil) {
+					return
+				}
+			}
+		}
+		// the second conversation is ended by closing the connection (the known
+		// Stop() findings would only cost time here)
+	}
 	s.close()
 	closed = true
 	stopPipeline()
@@ -904,8 +1329,11 @@ func runC21(rt tb, rec *evi.Recorder, cs *c21Case, pc, ps rawpeer.Plan) {
 	late := log.afterStop
 	final := len(log.ev)
 	log.mu.Unlock()
-	if cs.Pipeline {
+	if cs.Pipeline || restarted {
 		final = sr.atLen // apply calls are asynchronous; only direct callbacks count (afterStop)
+	}
+	if restarted {
+		late = 0 // judged before the restart
 	}
 	if late > 0 || final != sr.atLen {
 		if !fail("stop:callback-after-stop:"+mode, fmt.Sprintf("%d callback(s) fired after Stop() had returned (log %d -> %d)", max(late, final-sr.atLen), sr.atLen, final), nil) {
@@ -1025,7 +1453,7 @@ func cmpEvent(cs *c21Case, k int, it csItem, e csEvent) string {
 // caseKey is the canonical description used for distinctness.
 func caseKey(cs *c21Case) string {
 	var sb strings.Builder
-	fmt.Fprintf(&sb, "ntn=%v limit=%d raw=%v stop=%d cb=%v pl=%v/%d/%d/%d ", cs.NtN, cs.Limit, cs.Raw, cs.StopAfter, cs.CbDelayUs, cs.Pipeline, cs.PipeWorker, cs.PipeBuf, cs.HoldFwd)
+	fmt.Fprintf(&sb, "ntn=%v limit=%d raw=%v stop=%d cb=%v pl=%v/%d/%d/%d pre=%v sc=%v tip=%d err=%d rs=%v is=%v ", cs.NtN, cs.Limit, cs.Raw, cs.StopAfter, cs.CbDelayUs, cs.Pipeline, cs.PipeWorker, cs.PipeBuf, cs.HoldFwd, cs.Pre, cs.Scribble, cs.TipAt, cs.CbErrAt, cs.Restart, cs.IsectSpec)
 	for _, it := range cs.History {
 		c := byte('f')
 		if it.Kind == "back" {
@@ -1058,6 +1486,15 @@ func caseSummary(cs *c21Case) map[string]any {
 			c = "A" + c
 		}
 		sb.WriteString(c)
+		if it.PtSpec > 0 {
+			fmt.Fprintf(&sb, "%d", it.PtSpec)
+		}
+		if it.Origin {
+			sb.WriteString("o")
+		}
+		if it.TipSpec > 0 {
+			fmt.Fprintf(&sb, "^%d", it.TipSpec)
+		}
 		if it.Hold {
 			sb.WriteString("+")
 		}
@@ -1068,8 +1505,9 @@ func caseSummary(cs *c21Case) map[string]any {
 		"n": len(cs.History), "stop_after": cs.StopAfter, "cb_delay_us": cs.CbDelayUs,
 		"client_read_plan": cs.ClientPlan, "server_read_plan": cs.ServerPlan,
 		"block_pipeline": cs.Pipeline, "pipeline_workers": cs.PipeWorker, "pipeline_buffer": cs.PipeBuf, "hold_in_decode": cs.HoldFwd,
+		"pre_steps": cs.Pre, "scribble_received": cs.Scribble, "get_current_tip_at": cs.TipAt, "callback_error_at": cs.CbErrAt, "restart_after_stop": cs.Restart, "special_intersect": cs.IsectSpec,
 		"history": strings.TrimSpace(sb.String()),
-		"legend":  "f RollForward, b RollBackward, A preceded by AwaitReply, + shares a segment with the next reply",
+		"legend":  "f RollForward, b RollBackward (b1..b4 special point, bo origin), A preceded by AwaitReply, ^k special tip, + shares a segment with the next reply",
 	}
 	if len(cs.History) <= 12 {
 		out["items"] = cs.History
